@@ -112,7 +112,14 @@ def cases(tier, seed):
         out.append({'idx': idx, 'hist': hist, 'reuse': rng.random() < 0.3,
                     'skips': skips,
                     'ign': rng.choice([['ign-'], ['ign-', 'Dummy-'],
-                                       ['ign-.*\\d$'], []])})
+                                       ['ign-.*\\d$'], [],
+                                       # patterns that only mean the same
+                                       # when each is matched on its own
+                                       ['(?i)IGN-', 'WRK-'],
+                                       ['(q)\\1', '(ign)-\\d+-(\\d)$'],
+                                       ['ign-(?P<n>\\d)', 'zz(?P<n>x)'],
+                                       ['zzz|', 'ign-'][::-1],
+                                       ['ign', 'rk-ign']])})
     return out
 
 
